@@ -49,8 +49,8 @@ func (a *feedAdapter) PrepareConnection(c io.ReadWriteCloser) error {
 	}
 	return nil
 }
-func (a *feedAdapter) GetProtocol() string                        { return "tcp" }
-func (a *feedAdapter) Close() error                               { a.once.Do(func() { close(a.closed) }); return nil }
+func (a *feedAdapter) GetProtocol() string { return "tcp" }
+func (a *feedAdapter) Close() error        { a.once.Do(func() { close(a.closed) }); return nil }
 
 // localConn is the local connection handed to the handler. Its outcome is decided exactly once:
 // admitted (the handler called PrepareConnection, i.e. it passed the limit check) or refused (the
@@ -110,8 +110,9 @@ type fakeClient struct {
 	// until that many have arrived, then lets them go together (spin), so that simultaneous arrivals
 	// really reach the check at the same time
 	rendezvous, arrived atomic.Int32
-	quotaErr            bool // GetUserQuota fails: documented as "do not block the connection"
-	onDial              func(i int, tunnelID, mappingID string)
+	quotaErr            bool                                    // GetUserQuota fails: documented as "do not block the connection"
+	onDial              func(i int, tunnelID, mappingID string) // set before the first connection is offered
+	dialSeq             atomic.Int32
 }
 
 func (f *fakeClient) DialTunnel(tunnelID, mappingID, secretKey string) (net.Conn, stream.PackageStreamer, error) {
@@ -121,10 +122,13 @@ func (f *fakeClient) DialTunnel(tunnelID, mappingID, secretKey string) (net.Conn
 	f.mu.Lock()
 	f.far = append(f.far, b)
 	f.mu.Unlock()
-	n := f.dials.Add(1)
+	// the hook runs BEFORE the dial is counted: whoever has seen dials reach a value (the rig waits for
+	// that) has also seen everything the hooks of those dials did (e.g. registering a closer goroutine)
+	seq := f.dialSeq.Add(1)
 	if hook := f.onDial; hook != nil {
-		hook(int(n)-1, tunnelID, mappingID)
+		hook(int(seq)-1, tunnelID, mappingID)
 	}
+	f.dials.Add(1)
 	f.signal()
 	return tc, &pipeStream{c: tc}, nil
 }
@@ -161,7 +165,7 @@ func (f *fakeClient) GetUserQuota() (*models.UserQuota, error) {
 	}
 	return &models.UserQuota{MaxConnections: f.userMax}, nil
 }
-func (f *fakeClient) GetServerProtocol() string                                { return "tcp" }
+func (f *fakeClient) GetServerProtocol() string                                 { return "tcp" }
 func (f *fakeClient) SendTunnelCloseNotify(int64, string, string, string) error { return nil }
 
 var _ mapping.ClientInterface = (*fakeClient)(nil)
